@@ -136,6 +136,8 @@ type State struct {
 	notes   []NoteRec
 	lits    map[int64]bool
 	bind    map[string]*big.Int // small-domain variables pinned to one value by the path condition
+	dom     map[string][4]uint64 // remaining values of variables of <= 8 bits under the single-variable conjuncts
+	coupled map[string]bool      // such variables that also occur in conjuncts with other variables
 }
 
 type KnownSig struct {
@@ -191,6 +193,18 @@ func (st *State) clone() *State {
 		n.bind = make(map[string]*big.Int, len(st.bind))
 		for k, v := range st.bind {
 			n.bind[k] = v
+		}
+	}
+	if st.dom != nil {
+		n.dom = make(map[string][4]uint64, len(st.dom))
+		for k, v := range st.dom {
+			n.dom[k] = v
+		}
+	}
+	if st.coupled != nil {
+		n.coupled = make(map[string]bool, len(st.coupled))
+		for k, v := range st.coupled {
+			n.coupled[k] = v
 		}
 	}
 	if st.extra != nil {
@@ -266,51 +280,75 @@ func substTerm(t *Term, bind map[string]*big.Int, cache map[int64]*Term) *Term {
 	return r
 }
 
-// learn pins a variable of at most 8 bits when the conjuncts that mention only it leave a
-// single value.
+// domainOf returns the value set of a small variable (all values when nothing is known yet).
+func (st *State) domainOf(v *Term) [4]uint64 {
+	if d, ok := st.dom[v.Name]; ok {
+		return d
+	}
+	var d [4]uint64
+	n := 1 << uint(v.S.W)
+	for i := 0; i < n; i++ {
+		d[i>>6] |= 1 << uint(i&63)
+	}
+	return d
+}
+
+// filterDomain keeps the values of v under which c evaluates to true.
+func filterDomain(d [4]uint64, v *Term, c *Term) (r [4]uint64, count int, last int) {
+	model := map[string]*big.Int{}
+	for i := 0; i < 1<<uint(v.S.W); i++ {
+		if d[i>>6]&(1<<uint(i&63)) == 0 {
+			continue
+		}
+		model[v.Name] = big.NewInt(int64(i))
+		if evalTerm(c, model, map[int64]*Term{}).IsTrue() {
+			r[i>>6] |= 1 << uint(i&63)
+			count++
+			last = i
+		}
+	}
+	return
+}
+
+// learn maintains the value sets of variables of at most 8 bits and pins a variable when
+// a single value remains.
 func (st *State) learn(c *Term) {
 	c = st.subst(c)
 	v := soleVar(c)
-	if v == nil || v.S.K != KBV || v.S.W > 8 {
+	if v == nil {
+		if c.IsConst() {
+			return
+		}
+		var vs []*Term
+		collectVars(c, map[int64]bool{}, &vs)
+		for _, x := range vs {
+			if x.S.K == KBV && x.S.W <= 8 {
+				if st.coupled == nil {
+					st.coupled = map[string]bool{}
+				}
+				st.coupled[x.Name] = true
+			}
+		}
+		return
+	}
+	if v.S.K != KBV || v.S.W > 8 {
 		return
 	}
 	if _, done := st.bind[v.Name]; done {
 		return
 	}
-	var own []*Term
-	for _, p := range st.pc {
-		p = st.subst(p)
-		if soleVar(p) == v {
-			own = append(own, p)
-		}
+	d, count, last := filterDomain(st.domainOf(v), v, c)
+	if st.dom == nil {
+		st.dom = map[string][4]uint64{}
 	}
-	model := map[string]*big.Int{}
-	var only *big.Int
-	for val := 0; val < 1<<uint(v.S.W); val++ {
-		model[v.Name] = big.NewInt(int64(val))
-		cache := map[int64]*Term{}
-		ok := true
-		for _, p := range own {
-			if !evalTerm(p, model, cache).IsTrue() {
-				ok = false
-				break
-			}
-		}
-		if ok {
-			if only != nil {
-				return
-			}
-			only = model[v.Name]
-		}
-	}
-	if only != nil {
+	st.dom[v.Name] = d
+	if count == 1 {
 		if st.bind == nil {
 			st.bind = map[string]*big.Int{}
 		}
-		st.bind[v.Name] = only
+		st.bind[v.Name] = big.NewInt(int64(last))
 	}
 }
-
 func (st *State) curG() *G { return st.gs[st.cur] }
 
 var objCounter int64
